@@ -167,7 +167,8 @@ func runC15(c *Ctx) {
 	// entry edges of the charge block
 	{
 		b := charge.Instr.Block()
-		for len(b.Preds) == 1 && b.Preds[0].Succs[0] == b && len(b.Preds[0].Succs) == 1 {
+		for len(b.Preds) == 1 {
+			// straight-line or conditionally skipped charge (`if fee != 0 { charge }`): classify the edges into the join above it
 			b = b.Preds[0]
 		}
 		nOK := 0
